@@ -658,6 +658,14 @@ fn crash_found(c: &Crash, who: &str, method: &str, at: usize) -> Found {
             at_event: at,
         };
     }
+    if c.what.contains(super::passwatch::WORK_BUDGET_MARKER) {
+        return Found {
+            class: "nonterminating_expansion".into(),
+            sig: format!("nonterminating:expansion:{}:{}", who, method.rsplit('/').next().unwrap_or(method)),
+            message: format!("{} server, {}: does not terminate in any useful sense ({})", who, method, c.what),
+            at_event: at,
+        };
+    }
     let loc = short_loc(&c.location);
     Found {
         class: format!("crash_{}", who),
